@@ -126,8 +126,18 @@ func (wal *BaseWAL) OnStart() error {
 	if err != nil {
 		return err
 	} else if size == 0 {
-		if err := wal.WriteSync(EndHeightMessage{0}); err != nil {
+		// The head is also empty right after a rotation. Write the initial
+		// marker only into a WAL that holds no records at all: a second
+		// #ENDHEIGHT 0 behind the records of the chain's first height would make
+		// SearchForEndHeight(0) return a reader that skips them.
+		empty, err := wal.isEmpty()
+		if err != nil {
 			return err
+		}
+		if empty {
+			if err := wal.WriteSync(EndHeightMessage{0}); err != nil {
+				return err
+			}
 		}
 	}
 	err = wal.group.Start()
@@ -137,6 +147,21 @@ func (wal *BaseWAL) OnStart() error {
 	wal.flushTicker = time.NewTicker(wal.flushInterval)
 	go wal.processFlushTicks()
 	return nil
+}
+
+// isEmpty reports whether no file of the group, head or rolled, holds any data.
+func (wal *BaseWAL) isEmpty() (bool, error) {
+	gr, err := wal.group.NewReader(wal.group.MinIndex())
+	if err != nil {
+		return false, err
+	}
+	defer gr.Close()
+
+	_, err = gr.Read(make([]byte, 1))
+	if err == io.EOF {
+		return true, nil
+	}
+	return false, err
 }
 
 func (wal *BaseWAL) processFlushTicks() {
